@@ -102,6 +102,10 @@ inductive Transport
   | sourceSplit (id : Nat) (sizes : List Nat)
   /-- GoldSrc split packets -/
   | goldSplit (id : Nat) (sizes : List Nat)
+  /-- Source split packets carrying the bzip2-compressed reply: `z` is the compressed stream that is cut into chunks,
+  `crc` the CRC-32 of the uncompressed reply (both computed by the server; bzip2 and CRC-32 are not part of the SPEC,
+  the theorems relate them to the client's decoder by a law); bit 31 of `id` is set -/
+  | sourceSplitBz (id : Nat) (sizes : List Nat) (z : Bytes) (crc : Nat)
   deriving Repr
 
 def sourceFragment (withSize : Bool) (id total number : Nat) (chunk : Bytes) : Bytes :=
@@ -124,6 +128,11 @@ def datagrams (withSize : Bool) (t : Transport) (packet : Bytes) : List Bytes :=
   | .goldSplit id sizes =>
     let cs := chunks sizes packet
     (enumFrom 0 cs).map fun (i, c) => goldFragment id cs.length i c
+  | .sourceSplitBz id sizes z crc =>
+    -- fragment 0 announces the uncompressed size and the checksum before its chunk
+    let cs := chunks sizes z
+    (enumFrom 0 cs).map fun (i, c) =>
+      sourceFragment withSize id cs.length i ((if i == 0 then le 4 packet.length ++ le 4 crc else []) ++ c)
 
 /-- how one request is answered: challenge rounds, then the reply over some transport -/
 structure Exchange where
@@ -273,14 +282,27 @@ def wf (cfg : Config) (st : State) : Bool :=
   st.rules.length < 65536 && st.rules.all (fun p => okStr p.1 && okStr p.2) && distinctKeys st.rules
 
 /-- a transport as the specification prescribes it for this engine: Source engines split in the Source layout
-(uncompressed: bit 31 of the id clear; the fragment count travels in one byte), GoldSrc engines in the GoldSrc layout
-(count and number share one byte: at most 15 fragments).  Any cut points. -/
+(uncompressed: bit 31 of the id clear, or bzip2-compressed: bit 31 set; the fragment count travels in one byte),
+GoldSrc engines in the GoldSrc layout (count and number share one byte: at most 15 fragments).  Any cut points. -/
 def wfTransport (engine : Engine) : Transport → Bool
   | .single => true
   | .sourceSplit id sizes =>
     (match engine with | .source _ => true | .goldSrc _ => false) && id < 2 ^ 31 && sizes.length + 1 < 256
   | .goldSplit id sizes =>
     (match engine with | .goldSrc _ => true | .source _ => false) && id < 2 ^ 32 && sizes.length + 1 < 16
+  | .sourceSplitBz id sizes _ crc =>
+    (match engine with | .source _ => true | .goldSrc _ => false) && 2 ^ 31 ≤ id && id < 2 ^ 32 &&
+      sizes.length + 1 < 256 && crc < 2 ^ 32
+
+def Transport.compressed : Transport → Bool
+  | .sourceSplitBz _ _ _ _ => true
+  | _ => false
+
+/-- a compressed transport carries what the server's compressor and checksum give for the reply; the client
+refuses to decompress more than 4 MiB (`MAX_DECOMPRESSED_SIZE`), so the reply is within that -/
+def Transport.carries (compress : Bytes → Bytes) (crc32 : Bytes → Nat) (packet : Bytes) : Transport → Prop
+  | .sourceSplitBz _ _ z crc => z = compress packet ∧ crc = crc32 packet ∧ packet.length ≤ maxDecompressedSize
+  | _ => True
 
 /-- the transports of the sections that are asked for (any number of challenge rounds, any challenge bytes) -/
 def wfExchanges (cfg : Config) : Bool :=
@@ -288,7 +310,17 @@ def wfExchanges (cfg : Config) : Bool :=
   (cfg.gather.players == .skip || wfTransport cfg.engine cfg.players.transport) &&
   (cfg.gather.rules == .skip || wfTransport cfg.engine cfg.rules.transport)
 
+/-- no reply is compressed -/
+def uncompressed (cfg : Config) : Bool :=
+  !cfg.info.transport.compressed && !cfg.players.transport.compressed && !cfg.rules.transport.compressed
+
 /-- every datagram fits the client's receive buffer (6144 bytes; the specification's datagrams are at most 1400) -/
 def fits (ds : List Bytes) : Bool := ds.all (fun d => d.length ≤ PACKET_SIZE)
+
+/-- every compressed reply of the exchange was produced by `compress` / `crc32` -/
+def carries (compress : Bytes → Bytes) (crc32 : Bytes → Nat) (cfg : Config) (st : State) : Prop :=
+  cfg.info.transport.carries compress crc32 (infoPacket cfg st) ∧
+  cfg.players.transport.carries compress crc32 (reply 0x44 (encPlayers st.players)) ∧
+  cfg.rules.transport.carries compress crc32 (reply 0x45 (encRules st.rules))
 
 end Gd.Valve.Spec
